@@ -52,7 +52,7 @@ def local_rename_choices(docs):
         return []      # a negative index is a second spelling of a list position: "the same path in every document" is not syntactic then
     for d in docs:
         for p, _ in G.paths_of(d['raw']):
-            if p and isinstance(p[-1], str) and all(isinstance(k, str) or (type(k) is int and k >= 0) for k in p):   # negative indices alias positions
+            if p and isinstance(p[-1], str) and all(isinstance(k, str) for k in p):   # list positions shift when a deleting node prunes the list: only mapping paths name "the same place" in every document and in the result
                 if p not in seen:
                     seen.append(p)
                     names.setdefault(p[-1], set()).add(p[:-1])
